@@ -65,6 +65,10 @@ deriving Repr, Inhabited
 
 def LexSt.addDiag (s : LexSt) (d : Diag) : LexSt := { s with diags := s.diags ++ [d] }
 
+def LexSt.addDiag? (s : LexSt) : Option Diag → LexSt
+  | some d => s.addDiag d
+  | none => s
+
 def mkDiag (name : String) (level : Level := .error) (hs : List Highlight) : Diag :=
   { name := name, text := catText name, level := level, highlights := hs }
 
@@ -131,10 +135,10 @@ def takeWhileFrom (rest : List Char) (off : Nat) (p : Char → Bool) : List Char
   (rest.drop off).takeWhile p
 
 /-- Escape handling of `pop(use_escape=True)` once `char = '\'` (of raw size `sz`) is
-followed by `t ≠ '\n'`. Returns the characters of the escape, its raw size and the
-diagnostics added. -/
-def escape (s : LexSt) (sz : Nat) (t : Char) : List Char × Nat × List Diag × Nat :=
-  if simpleEscapes.contains t then (['\\', t], sz + 1, [], 0)
+followed by `t ≠ '\n'` whose own spelling has `k` raw characters. Returns the characters of
+the escape, its raw size, the diagnostics added and a column adjustment. -/
+def escape (s : LexSt) (sz : Nat) (t : Char) (k : Nat) : List Char × Nat × List Diag × Nat :=
+  if simpleEscapes.contains t then (['\\', t], sz + k, [], 0)
   else if t == 'x' then
     let sz1 := sz + 1
     match rawPeek s.rest sz1 2 with
@@ -154,7 +158,7 @@ def escape (s : LexSt) (sz : Nat) (t : Char) : List Char × Nat × List Diag × 
     ('\\' :: ds, sz + ds.length, [], 0)
   else
     -- a raw tab after the backslash moves to the next tab stop (3 - (col+sz-1) % 4 extra columns)
-    (['\\', t], sz + 1, [mkDiag "UNKNOWN_ESCAPE" .notice [⟨s.line, s.col + sz, some 1, none⟩]],
+    (['\\', t], sz + k, [mkDiag "UNKNOWN_ESCAPE" .notice [⟨s.line, s.col + sz, some 1, none⟩]],
      if t == '\t' then 3 - (s.col + sz - 1) % 4 else 0)
 
 /-- What `pop` does with the `(char, size)` the splice loop stopped on: the escape handling
@@ -163,7 +167,7 @@ Result: characters returned, raw size, diagnostics, column adjustment. -/
 def escOf (useEscape : Bool) (s : LexSt) (c : Char) (sz : Nat) : List Char × Nat × List Diag × Nat :=
   if c == '\\' && useEscape then
     match peek1 s.rest sz with
-    | some (t, _) => if t != '\n' then escape s sz t else ([c], sz, [], 0)
+    | some (t, k) => if t != '\n' then escape s sz t k else ([c], sz, [], 0)
     | none => ([c], sz, [], 0)
   else ([c], sz, [], 0)
 
@@ -220,50 +224,49 @@ def intSuffix (u : Uni) (lastConst : Option Char) (after : List Char) : List Cha
     | c :: tl => if u.isW c then c :: tl.takeWhile (fun c => u.isW c || c == '.') else []
     | [] => []
 
-/-- `INT_LITERAL_PATTERN.match(source[pos:])` -/
+/-- close an integer match: `Constant` is a `+` group, so it is never empty -/
+def intFin (u : Uni) (pre const after : List Char) : Option IntMatch :=
+  if const.isEmpty then none else some ⟨pre, const, intSuffix u const.getLast? after⟩
+
+def isXc (c : Char) : Bool := c == 'x' || c == 'X'
+def isBc (c : Char) : Bool := c == 'b' || c == 'B'
+
+/-- alternative `0[xX]+` of the prefix, given the text after the `0` -/
+def intAltX (u : Uni) (tl : List Char) : Option IntMatch :=
+  match tl.takeWhile isXc with
+  | [] => none
+  | [x] => intFin u ['0', x] ((tl.dropWhile isXc).takeWhile u.isH) ((tl.dropWhile isXc).dropWhile u.isH)
+  | xs => intFin u ('0' :: xs) ((tl.dropWhile isXc).takeWhile u.isD) ((tl.dropWhile isXc).dropWhile u.isD)
+
+/-- alternative `0[bB]+` -/
+def intAltB (u : Uni) (tl : List Char) : Option IntMatch :=
+  match tl.takeWhile isBc with
+  | [] => none
+  | bs => intFin u ('0' :: bs) ((tl.dropWhile isBc).takeWhile u.isD) ((tl.dropWhile isBc).dropWhile u.isD)
+
+/-- `INT_LITERAL_PATTERN.match(source[pos:])`: the prefix alternatives `0[xX]+`, `0[bB]+`,
+`0`, empty are tried in this order; the first one after which `Constant` matches wins. -/
 def matchInt (u : Uni) (src : List Char) : Option IntMatch :=
-  let isX := fun c => c == 'x' || c == 'X'
-  let isB := fun c => c == 'b' || c == 'B'
-  let fin (pre const after : List Char) : Option IntMatch :=
-    some ⟨pre, const, intSuffix u const.getLast? after⟩
   match src with
   | [] => none
   | '0' :: tl =>
-    -- alternative `0[xX]+`
-    let (xs, afterX) := spanP isX tl
-    let altA : Option IntMatch :=
-      match xs with
-      | [] => none
-      | [x] =>
-        let (hs, after) := spanP u.isH afterX
-        if hs.isEmpty then none else fin ['0', x] hs after
-      | _ =>
-        let (dsA, after) := spanP u.isD afterX
-        if dsA.isEmpty then none else fin ('0' :: xs) dsA after
-    match altA with
+    match intAltX u tl with
     | some m => some m
     | none =>
-      -- alternative `0[bB]+`
-      let (bs, afterB) := spanP isB tl
-      let altB : Option IntMatch :=
-        if bs.isEmpty then none else
-        let (dsB, after) := spanP u.isD afterB
-        if dsB.isEmpty then none else fin ('0' :: bs) dsB after
-      match altB with
+      match intAltB u tl with
       | some m => some m
       | none =>
-        -- alternative `0`
-        let (ds1, after1) := spanP u.isD tl
-        if !ds1.isEmpty then fin ['0'] ds1 after1
-        else
-          -- empty prefix: `\d+` from the start ('0' itself is a digit)
-          let (ds0, after0) := spanP u.isD src
-          fin [] ds0 after0
-  | c :: _ =>
-    if u.isD c then
-      let (ds, after) := spanP u.isD src
-      fin [] ds after
-    else none
+        match intFin u ['0'] (tl.takeWhile u.isD) (tl.dropWhile u.isD) with
+        | some m => some m
+        | none => intFin u [] (src.takeWhile u.isD) (src.dropWhile u.isD)
+  | _ :: _ => intFin u [] (src.takeWhile u.isD) (src.dropWhile u.isD)
+
+/-- `_check_bad_prefix(name, bucket)`: one highlight per digit outside the bucket; the
+error is only added when there is at least one -/
+def badDigits (line col : Nat) (m : IntMatch) (name : String) (bucket : List Char) : List Diag :=
+  let hs := (m.const.zipIdx m.pre.length).filterMap fun (c, i) =>
+    if bucket.contains c then none else some (⟨line, col + i, some 1, none⟩ : Highlight)
+  if hs.isEmpty then [] else [mkDiag name .error hs]
 
 def intDiags (line col : Nat) (total : Nat) (m : IntMatch) : List Diag :=
   let sufS := String.ofList m.suf
@@ -277,15 +280,11 @@ def intDiags (line col : Nat) (total : Nat) (m : IntMatch) : List Diag :=
           [mkDiag "MAXIMAL_MUNCH" .error [⟨line, col + strLen, some 1, some "Perhaps you forgot a space ( )?"⟩]]
         else [mkDiag "INVALID_SUFFIX" .error [⟨line, col + strLen, some m.suf.length, none⟩]]
       | [] => []   -- unreachable: "" is a valid suffix
-  let bad (name : String) (bucket : List Char) : List Diag :=
-    let hs := (m.const.zipIdx m.pre.length).filterMap fun (c, i) =>
-      if bucket.contains c then none else some (⟨line, col + i, some 1, none⟩ : Highlight)
-    if hs.isEmpty then [] else [mkDiag name .error hs]
   let preS := String.ofList m.pre
   let d2 : List Diag :=
-    if preS == "0b" || preS == "0B" then bad "INVALID_BIN_INT" "01".toList
-    else if preS == "0" then bad "INVALID_OCT_INT" "01234567".toList
-    else if preS == "0x" || preS == "0X" then bad "INVALID_HEX_INT" "0123456789abcdefABCDEF".toList
+    if preS == "0b" || preS == "0B" then badDigits line col m "INVALID_BIN_INT" "01".toList
+    else if preS == "0" then badDigits line col m "INVALID_OCT_INT" "01234567".toList
+    else if preS == "0x" || preS == "0X" then badDigits line col m "INVALID_HEX_INT" "0123456789abcdefABCDEF".toList
     else []
   d1 ++ d2
 
@@ -444,7 +443,7 @@ def parseFloat (u : Uni) : SubLex := fun s =>
     match floatLogic u s.line s.col s.rest with
     | .noMatch => none
     | .tok m d =>
-      let s1 := match d with | some d => s.addDiag d | none => s
+      let s1 := s.addDiag? d
       match popN (m.const.length + m.exp.length + m.suf.length) s1 with
       | (_, none) => none    -- unreachable (`C05`): the matched characters are there
       | (s2, some v) => some (s2, mkTok "CONSTANT" s s2 (some v))
@@ -487,7 +486,8 @@ def charLoop (line col : Nat) : Nat → LexSt → List Char → Nat → LexSt ×
       (s1.addDiag (mkDiag "UNEXPECTED_EOF_CHR" .error [⟨line, col, some v.length, none⟩]), v, n)
     | (s1, some ch) =>
       if ch == ['\n'] then
-        (s1.addDiag (mkDiag "UNEXPECTED_EOL_CHR" .error
+        -- the newline is left in the input (position restored to before the `pop`)
+        ({ s with diags := s1.diags }.addDiag (mkDiag "UNEXPECTED_EOL_CHR" .error
           [⟨line, col, some v.length, none⟩, ⟨line, col + v.length, some 1, some charHint⟩]), v, n)
       else if ch == ['\''] then (s1, v ++ ch, n)
       else charLoop line col fuel s1 (v ++ ch) (n + 1)
@@ -638,31 +638,33 @@ def opChars : List Char := "+-*/,<>^&|!=%;:.~?#".toList
 def opChars2 : List Char := ".+-*/%<>^&|!=".toList
 def opChars3 : List Char := "+-<>=&|".toList
 
-/-- `operators[text]`; a miss is a `KeyError` (outcome `crash`), see `C05.operator_keys`. -/
-def parseOperator : LexSt → Option (Option (LexSt × Token))   -- outer none = KeyError
-  | s =>
-    match peek1 s.rest 0 with
-    | none => some none
-    | some (c, _) =>
-      if !opChars.contains c then some none else
-      let fin (n : Nat) : Option (Option (LexSt × Token)) :=
-        match popN n s with
-        | (_, none) => some none   -- unreachable
-        | (s1, some v) =>
-          match assoc Generated.operators (String.ofList v) with
-          | some ty => some (some (s1, mkTok ty s s1 none))
-          | none => none
-      if opChars2.contains c then
-        let r3 := rawPeek s.rest 0 3
-        if r3 == some ">>=".toList || r3 == some "<<=".toList || r3 == some "...".toList then fin 3 else
-        match peek2 s.rest with
-        | none => some none
-        | some (temp, _) =>
-          if temp == ">>".toList || temp == "<<".toList || temp == "->".toList then fin 2
-          else if temp == [c, '='] && (assoc Generated.operators (String.ofList temp)).isSome then fin 2
-          else if opChars3.contains c && temp == [c, c] then fin 2
-          else fin 1
-      else fin 1
+/-- `Token(operators[self.pop(times=n)], pos)`; outer `none` = `KeyError` -/
+def opFin (s : LexSt) (n : Nat) : Option (Option (LexSt × Token)) :=
+  match popN n s with
+  | (_, none) => some none   -- unreachable
+  | (s1, some v) =>
+    match assoc Generated.operators (String.ofList v) with
+    | some ty => some (some (s1, mkTok ty s s1 none))
+    | none => none
+
+/-- `parse_operator`; a miss in `operators[...]` is a `KeyError` (outer `none`), see
+`C05.operator_keys`. -/
+def parseOperator (s : LexSt) : Option (Option (LexSt × Token)) :=
+  match peek1 s.rest 0 with
+  | none => some none
+  | some (c, _) =>
+    if !opChars.contains c then some none else
+    if opChars2.contains c then
+      let r3 := rawPeek s.rest 0 3
+      if r3 == some ">>=".toList || r3 == some "<<=".toList || r3 == some "...".toList then opFin s 3 else
+      match peek2 s.rest with
+      | none => some none
+      | some (temp, _) =>
+        if temp == ">>".toList || temp == "<<".toList || temp == "->".toList then opFin s 2
+        else if temp == [c, '='] && (assoc Generated.operators (String.ofList temp)).isSome then opFin s 2
+        else if opChars3.contains c && temp == [c, c] then opFin s 2
+        else opFin s 1
+    else opFin s 1
 
 def parseBrackets : SubLex := fun s =>
   match peek1 s.rest 0 with
